@@ -44,6 +44,7 @@ type inProgressResponseStatus struct {
 	signals        queryexecutor.ResponseSignals
 	updates        []gsmsg.GraphSyncRequest
 	state          graphsync.RequestState
+	networkError   bool
 	startTime      time.Time
 	responseStream responseassembler.ResponseStream
 }
